@@ -107,7 +107,12 @@ func (i *Int) Add(lhs, rhs *Int) {
 // AddCap sets i = lhs + rhs with capacity capacity.
 // When capacity < 0, it is set to max(lhs.AnnouncedLen(), rhs.AnnouncedLen()) + 1.
 func (i *Int) AddCap(lhs, rhs *Int, capacity int) {
-	(*saferith.Int)(i).Add((*saferith.Int)(lhs), (*saferith.Int)(rhs), capacity)
+	// saferith's Int.Add builds the two's complement of both operands in the receiver's limbs and
+	// copies an operand with fewer limbs without clearing the rest, so limbs left over from the
+	// receiver's previous value leak into the sum. A fresh receiver has none.
+	var out saferith.Int
+	out.Add((*saferith.Int)(lhs), (*saferith.Int)(rhs), capacity)
+	(*saferith.Int)(i).SetInt(&out)
 }
 
 // Neg sets i = -x.
